@@ -15,7 +15,8 @@
 (* Projection of one store: vc, end (get_calibration_end), slots (for      *)
 (* ci = 0 .. beyond the end: x = 0 when get_name fails, else every         *)
 (* getter's answer and the per-calibration property document read through  *)
-(* vnacal_property_*), gprops (global document), pv (for every handle      *)
+(* the vnacal_property functions), gprops (global document), pv (for every *)
+(* handle                                                                  *)
 (* 0 .. one past the highest ever returned: vnacal_get_parameter_value at  *)
 (* the probe frequencies ProbeF: "F" failure, value id, or for unknown /   *)
 (* correlated handles the harness observation "T" / "W": within / outside  *)
